@@ -95,7 +95,21 @@ def run(tier, seed, replay):
             o = {"t": "obj", "o": sorted([[[ord(c) for c in k], r.choice(few)] for k in keys])}
             inp = {"t": "obj", "o": [[[111], o], [[116, 115], {"t": "arr", "a": ts}], [[120], r.choice(few)], [[120, 115], {"t": "arr", "a": xs}], [[121, 115], {"t": "arr", "a": ys}]]}
             for q in r.sample(CONSUMERS, 9 if quick else 14):
-                cases.append({"id": len(cases), "src": q, "inputs": [inp]})
+                # the same value universe carried natively, as *big.Int and as json.Number (the carriers the decoders and --argjson hand over): the
+                # consumers of the order compare through gojq.Compare whatever carries the numbers
+                cases.append({"id": len(cases), "src": q, "inputs": [inp], "rep": r.choice([0, 0, 1, 2, 2])})
+        # integers that differ only beyond the precision of a double (neighbours of 2^53, 2^63, 10^22): every consumer, every carrier
+        near = [2 ** 53 - 1, 2 ** 53, 2 ** 53 + 1, 2 ** 53 + 2, 2 ** 53 + 3, 2 ** 63 - 1, 2 ** 63, 2 ** 63 + 1, 10 ** 22, 10 ** 22 + 1, 10 ** 22 + 2, -(2 ** 53) - 1, -(2 ** 53) - 2, -(10 ** 22) - 1]
+        for _ in range(40 if quick else 1500):
+            xs = r.sample(near, r.choice([3, 5, 8]))
+            for x in r.sample(near, 3):
+                ts = [{"t": "arr", "a": [jqgen.V(v), jqgen.V(i)]} for i, v in enumerate(xs)]
+                inp = jqgen.V({"o": {}, "x": x, "xs": xs, "ys": r.sample(near, 2)})
+                inp["o"] = [kv if kv[0] != [116, 115] else kv for kv in inp["o"]] + [[[116, 115], {"t": "arr", "a": ts}]]
+                inp["o"].sort(key=lambda kv: kv[0])
+                for q in (".x as $x | .xs | sort | bsearch($x)", ".x as $x | .xs | index($x)", ".x as $x | .xs | indices($x)", ".xs | sort", ".xs | unique", ".xs | [min, max]", ".ys as $ys | .xs - $ys", ".xs | group_by(.) | map(length)",
+                          ".ts | sort_by(.[0]) | map(.[1])", ".x as $x | .xs | map(. < $x, . == $x)", ".xs | sort | . as $s | [$s[] as $e | $s | bsearch($e)]"):
+                    cases.append({"id": len(cases), "src": q, "inputs": [inp], "rep": r.choice([0, 1, 2, 2])})
         counters = evalfam.check_cases(rep, work, vh, prelude, cases, timeout=1500, per_shard_min=30)
         rep.cov["consumer_verdicts"] = counters
         # 4. which of several EQUAL elements: the elements are number literals of equal value and different spelling (1, 1.0, 1e0, 10e-1 ...),
